@@ -18,6 +18,8 @@ CONSTANTS
   BAbort = 1
   BSendFail = 0
   Depth = 0
+  Locks = FALSE
+  HandlerReadsState = FALSE
 SPECIFICATION FairSpec
 INVARIANT TypeOK
 INVARIANT AtMostOneJob
